@@ -11,6 +11,9 @@
     inferred from the content of a renamed copy and of gzip copies.
 (C) random sequences of writes over a directory whose state evolves are recorded as events and
     validated by Trace_FileIO.tla.
+(D) Registry.tla (see engines/registry.py): dispatch and format identification for every registration
+    order of the identifiers, replayed into the real RegionsRegistry with throw-away classes, and the
+    real identifiers / identify_format evaluated on real files for every extension x content signature.
 """
 import gzip
 import json
@@ -276,6 +279,8 @@ def run(ctx):
         if any(k[2] == 'ok' for k in unexercised):
             raise tlc.TlcError('a successful-serialisation request could not be exercised')
         trace_validation(ctx, sc, rnd)
+        from . import registry
+        registry.run(ctx, sc.d)
     finally:
         sc.close()
     ctx.assumptions += ['dangling symlink without overwrite: OSError with nothing changed, or a successful write, are both allowed (lexists vs exists)',
